@@ -55,35 +55,61 @@ registry! {
     ("HyperDualVec:dyn:f64", HyperDualDVec64, f64, 53, noord),
     ("HyperDualVec:2x2:f32", HyperDualSVec32<2, 2>, f32, 24, noord),
     ("HyperDualVec:dyn:f32", HyperDualDVec32, f32, 24, noord),
+    // nestings (the scalar of a dual number is a dual number)
+    ("Dual<Dual>:f64", Dual<Dual64, f64>, f64, 53, ord),
+    ("Dual<Dual>:f32", Dual<Dual32, f32>, f32, 24, ord),
+    ("Dual<Dual<Dual>>:f64", Dual<Dual<Dual64, f64>, f64>, f64, 53, ord),
+    ("Dual2<Dual>:f64", Dual2<Dual64, f64>, f64, 53, ord),
+    ("Dual3<Dual>:f64", Dual3<Dual64, f64>, f64, 53, noord),
+    ("HyperDual<Dual>:f64", HyperDual<Dual64, f64>, f64, 53, noord),
+    ("Dual<Dual2>:f64", Dual<Dual2_64, f64>, f64, 53, ord),
+    ("Dual2<Dual2>:f64", Dual2<Dual2_64, f64>, f64, 53, ord),
+    ("HHD<Dual>:f64", HyperHyperDual<Dual64, f64>, f64, 53, noord),
+    ("Dual<DualVec:2>:f64", Dual<DualSVec64<2>, f64>, f64, 53, ord),
+    ("DualVec:2<Dual>:f64", DualVec<Dual64, f64, nalgebra::Const<2>>, f64, 53, ord),
+    ("DualVec:dyn<Dual>:f64", DualVec<Dual64, f64, nalgebra::Dyn>, f64, 53, ord),
+    ("Dual2Vec:2<Dual>:f64", Dual2Vec<Dual64, f64, nalgebra::Const<2>>, f64, 53, ord),
+}
+
+/// descriptor strings of a (possibly nested) TLC type descriptor; vector kinds yield the
+/// statically sized and the dynamically sized variant
+pub fn desc_keys(ty: &Value) -> Vec<String> {
+    let k = ty.get("k").and_then(|x| x.as_str()).unwrap_or("");
+    if k == "F" || k.is_empty() {
+        return vec![String::new()];
+    }
+    let n = ty.get("n").and_then(|x| x.as_u64());
+    let m = ty.get("m").and_then(|x| x.as_u64());
+    let inner: Vec<String> = match ty.get("inner") {
+        Some(i) => desc_keys(i).into_iter().map(|s| if s.is_empty() { s } else { format!("<{s}>") }).collect(),
+        None => vec![String::new()],
+    };
+    let heads: Vec<String> = match (k, m, n) {
+        ("HyperDualVec", Some(m), Some(n)) => vec![format!("{k}:{m}x{n}"), format!("{k}:dyn")],
+        (_, _, Some(n)) if k.ends_with("Vec") => vec![format!("{k}:{n}"), format!("{k}:dyn")],
+        _ => vec![k.to_string()],
+    };
+    let mut out = vec![];
+    for h in &heads {
+        for i in &inner {
+            out.push(format!("{h}{i}"));
+        }
+    }
+    out
 }
 
 /// the concrete configurations a TLC type descriptor (and mantissa bound) maps to
 pub fn keys_for(ty: &Value, mant: u64) -> Vec<&'static str> {
-    let k = ty.get("k").and_then(|x| x.as_str()).unwrap_or("");
-    let n = ty.get("n").and_then(|x| x.as_u64());
-    let m = ty.get("m").and_then(|x| x.as_u64());
-    let dims = match (k, m, n) {
-        ("HyperDualVec", Some(m), Some(n)) => Some(format!("{m}x{n}")),
-        (_, _, Some(n)) if k.ends_with("Vec") => Some(format!("{n}")),
-        _ => None,
-    };
+    let descs = desc_keys(ty);
     let mut out = vec![];
     for key in ALL_KEYS {
-        let parts: Vec<&str> = key.split(':').collect();
-        if parts[0] != k {
-            continue;
-        }
-        let fl = *parts.last().unwrap();
+        let (d, fl) = key.rsplit_once(':').unwrap();
         if fl == "f32" && mant > 24 {
             continue;
         }
-        if parts.len() == 3 {
-            let d = parts[1];
-            if d != "dyn" && Some(d.to_string()) != dims {
-                continue;
-            }
+        if descs.iter().any(|x| x == d) {
+            out.push(*key);
         }
-        out.push(*key);
     }
     out
 }
